@@ -57,7 +57,7 @@ func VHC11(mk func(function FunctionType) VHStore) {
 	}
 	upd := l.New()
 	var fp, fd *FilterType
-	selSpec := verifrt.Spec{Depth: 2, MaxUint: 999}
+	selSpec := verifrt.Spec{Depth: verifrt.Param("selDepth", 2), MaxUint: 999}
 	switch shape {
 	case "partial-ids":
 		fp = vhPartial()
